@@ -86,6 +86,8 @@ type roundEnv struct {
 	stubCalls  atomic.Int64
 	portableOn atomic.Bool
 	sessions   atomic.Int64 // stream sessions the server served
+	waves      sync.Map     // wave index -> *stormWave (doqstorm.go)
+	waveSeq    atomic.Int32
 }
 
 // matched is the endpoints' onMatch hook: evidence bookkeeping only.
@@ -137,6 +139,12 @@ func (env *roundEnv) stub(_ context.Context, req *stack.StubRequest) *stack.Stub
 	m := new(dns.Msg)
 	m.Answer = answerFor(name, req.Q.Qtype, req.Q.Qclass)
 	h := qhash(name, req.Q.Qtype, req.Q.Qclass)
+	if kind == "c" && aliasHops(name) > 0 && len(m.Answer) > 1 && h[5]%4 != 0 {
+		// an alias that leaves the answering zone: upstream hands back the bare
+		// CNAME and the cache completes the chain through its own sub-queries
+		// (one time in four upstream returns the whole chain instead)
+		m.Answer = m.Answer[:1]
+	}
 	rep := &stack.StubReply{Msg: m}
 	switch {
 	case kind == "x" && req.Q.Qclass == dns.ClassINET:
@@ -168,6 +176,11 @@ func (env *roundEnv) stub(_ context.Context, req *stack.StubRequest) *stack.Stub
 	switch kind {
 	case "s":
 		rep.Gate = *env.slowGate.Load()
+	case "b":
+		if w := env.wave(kindNumber(name)); w != nil {
+			rep.Gate = w.gate
+			w.arrive()
+		}
 	case "g":
 		l := dns.SplitDomainName(strings.ToLower(name))
 		env.gmu.RLock()
@@ -219,6 +232,7 @@ func srcIP(rng *rand.Rand, denied bool) string {
 
 func runRound(r *vlib.Run, rs *roundSpec) {
 	name := rs.Name
+	roundStart := time.Now()
 	if rs.Procs > 0 {
 		runtime.GOMAXPROCS(rs.Procs)
 	}
@@ -305,8 +319,17 @@ func runRound(r *vlib.Run, rs *roundSpec) {
 		registry.addNonce(n, fmt.Sprintf("shared failing name %d of round %s", i, name))
 		failNonces = append(failNonces, n)
 	}
+	// the round's shared alias names
+	var aliasNonces []string
+	arng := r.RandN("aliases/"+name, 0)
+	for i := 0; i < 4+rs.Groups/10; i++ {
+		n := newNonce(arng)
+		registry.addNonce(n, fmt.Sprintf("shared alias name %d of round %s", i, name))
+		aliasNonces = append(aliasNonces, n)
+	}
 	for _, s := range specs {
 		s.failNonces = failNonces
+		s.aliasNonces = aliasNonces
 	}
 	for g := 0; g < rs.Groups && len(open) >= 3; g++ {
 		gs := &groupState{gate: make(chan struct{})}
@@ -380,6 +403,16 @@ func runRound(r *vlib.Run, rs *roundSpec) {
 		}()
 	}
 
+	// DoQ storms (doqstorm.go): malformed messages on throw-away connections,
+	// each batch followed at once by exchanges that are in the server together
+	if rs.DoQ > 0 {
+		wg.Add(1)
+		go func() {
+			defer wg.Done()
+			runDoQStorm(env, "a", r.N(7, 14), true)
+		}()
+	}
+
 	// portable switch: a logical trigger (matched UDP replies), not a time
 	portableDone := make(chan struct{})
 	if rs.PortableAfter > 0 {
@@ -415,6 +448,22 @@ func runRound(r *vlib.Run, rs *roundSpec) {
 	case <-finished:
 	case <-time.After(watchdog):
 		r.Inconclusive(fmt.Sprintf("round %s: clients still running after %v (watchdog)", name, watchdog))
+	}
+	if rs.DoQ > 0 {
+		// … and on the quiet server, where nothing else takes from the pools
+		// between a malformed message and the exchanges that follow it
+		stormed := make(chan struct{})
+		t0 := time.Now()
+		go func() {
+			defer close(stormed)
+			runDoQStorm(env, "z", r.N(5, 10), false)
+			r.Max("doq_quiet_storm_ms_max", time.Since(t0).Milliseconds())
+		}()
+		select {
+		case <-stormed:
+		case <-time.After(watchdog):
+			r.Inconclusive(fmt.Sprintf("round %s: the quiet DoQ storm was still running after %v (watchdog)", name, watchdog))
+		}
 	}
 	close(keeperDone)
 	<-keeperExit
@@ -479,6 +528,7 @@ func runRound(r *vlib.Run, rs *roundSpec) {
 		}
 	}
 	r.Count("rounds_completed", 1)
+	r.Max("round_ms_max", time.Since(roundStart).Milliseconds())
 	r.Max("udp_slabs_parked_max", int64(stats1.UDPParked))
 	for _, s := range stats1.Stream {
 		r.Max("stream_small_slabs_parked_max_"+s.Proto, int64(s.SmallParked))
